@@ -68,3 +68,99 @@ impl Pool {
         Pool { docs, rcs }
     }
 }
+
+pub enum Verdict {
+    Agree(&'static str),
+    Skip,
+    Mismatch { key: String, expected: String, actual: String },
+}
+
+fn text(v: &Value) -> String {
+    serde_json::to_string(v).unwrap()
+}
+
+/// Decide a top-level builtin call `f(args...)` with the permissive R-fn spec.
+pub fn check_top_call(p: &Parsed, expr: &Expression<'_>, doc: &Value, doc_rc: &Rcvar) -> Verdict {
+    use crate::reval::{Builtins, ErrClass, Spec};
+    use crate::rparse::K;
+    let (name, args, at) = match &p.tree.k {
+        K::Function(n, a, at) => (n, a, *at),
+        _ => panic!("check_top_call needs a call expression"),
+    };
+    let ev = Eval::builtin();
+    let mut av = Vec::new();
+    for a in args {
+        match ev.ev(a, doc) {
+            Ok(v) => av.push(v),
+            Err(e) if e.detail == "UNSPECIFIED" => return Verdict::Skip,
+            Err(e) => {
+                let out = run_impl(expr, doc_rc);
+                return match &out {
+                    Out::SearchErr(je) if classify(je) == IClass::Rt(e.class) => Verdict::Agree("argument error"),
+                    _ => Verdict::Mismatch { key: format!("{}/argument-error", name), expected: format!("error {:?}", e.class), actual: out.brief() },
+                };
+            }
+        }
+    }
+    let out = run_impl(expr, doc_rc);
+    let mism = |key: &str, exp: String| Verdict::Mismatch { key: format!("{}/{}", name, key), expected: exp, actual: out.brief() };
+    let sig = crate::reval::sig_of(name);
+    match Builtins::spec(&ev, name, &av, at) {
+        None => match &out {
+            Out::SearchErr(je) if classify(je) == IClass::Rt(ErrClass::UnknownFunction) => Verdict::Agree("unknown function"),
+            _ => mism("unknown-function", "unknown-function error".into()),
+        },
+        Some(Err(e)) if e.detail == "UNSPECIFIED" => Verdict::Skip,
+        Some(Err(e)) => match &out {
+            Out::SearchErr(je) if classify(je) == IClass::Rt(e.class) => Verdict::Agree(match e.class {
+                ErrClass::InvalidArity => "invalid-arity",
+                ErrClass::InvalidType => "invalid-type",
+                ErrClass::InvalidValue => "invalid-value",
+                ErrClass::UnknownFunction => "unknown-function",
+            }),
+            Out::Value(_, true) | Out::Value(..) if e.class == ErrClass::InvalidType && av.iter().any(|a| matches!(a, V::X(_))) => {
+                mism("expref-accepted-as-value", format!("error {:?} ({})", e.class, e.detail))
+            }
+            _ => mism(&format!("expected-{:?}", e.class), format!("error {:?} ({})", e.class, e.detail)),
+        },
+        Some(Ok(spec)) => {
+            let got = match &out {
+                Out::Value(v, false) => v,
+                Out::Value(_, true) => return mism("expref-in-result", "a JSON value".into()),
+                Out::SearchErr(je) => {
+                    return match (&spec, classify(je)) {
+                        (Spec::NonFinite, IClass::Parse) => mism("nonfinite-result-reported-as-parse-error", "a runtime error or a number".into()),
+                        (Spec::NonFinite, _) => Verdict::Skip,
+                        (_, c) => mism(&format!("well-typed-call-fails-{:?}", c).replace(['(', ')'], "-"), "a value".into()),
+                    }
+                }
+                _ => return mism("no-value", "a value".into()),
+            };
+            if let Some(sig) = &sig {
+                if !crate::reval::result_type_ok(sig, got) {
+                    return mism("result-type", format!("a value of the declared result type {:?}", sig.result));
+                }
+            }
+            match spec {
+                Spec::Exactly(v) => {
+                    if deep_eq(&v, got) { Verdict::Agree("value") } else { mism("value", text(&v)) }
+                }
+                Spec::Same(v) => {
+                    if text(&v) == text(got) { Verdict::Agree("value") } else { mism("value", text(&v)) }
+                }
+                Spec::AnyOf(vs) => {
+                    if vs.iter().any(|v| text(v) == text(got)) { Verdict::Agree("value (one of the admissible)") } else { mism("value", format!("one of {}", text(&Value::Array(vs)))) }
+                }
+                Spec::JsonTextOf(v) => match got {
+                    Value::String(s) => match serde_json::from_str::<Value>(s) {
+                        Ok(back) if deep_eq(&back, &v) => Verdict::Agree("value"),
+                        _ => mism("value", format!("JSON text of {}", text(&v))),
+                    },
+                    _ => mism("value", "a string".into()),
+                },
+                Spec::Unspecified => Verdict::Skip,
+                Spec::NonFinite => Verdict::Skip,
+            }
+        }
+    }
+}
